@@ -240,6 +240,58 @@ class Derived(Base):
         self.q, self.r = q, r
 
 
+class Span:
+    """0-based start in Python, 1-based in the file: a sweeten/savorize
+    pair that is NOT idempotent, defined on a registered base class only."""
+    def __init__(self, start: int, end: int) -> None:
+        self.start, self.end = start, end
+
+    @classmethod
+    def _yatiml_savorize(cls, node: yatiml.Node) -> None:
+        if node.is_mapping() and node.has_attribute_type('start', int):
+            node.set_attribute(
+                'start', int(node.get_attribute('start').get_value()) - 1)
+
+    @classmethod
+    def _yatiml_sweeten(cls, node: yatiml.Node) -> None:
+        node.set_attribute(
+            'start', int(node.get_attribute('start').get_value()) + 1)
+
+
+class NamedSpan(Span):
+    """Relies on the seasoning of its base."""
+    def __init__(self, start: int, end: int, name: str) -> None:
+        super().__init__(start, end)
+        self.name = name
+
+
+class DeepSpan(NamedSpan):
+    """Two levels below the class that defines the hooks; own sweeten that
+    is not idempotent either (appends a marker savorize strips)."""
+    def __init__(self, start: int, end: int, name: str, depth: int
+                 ) -> None:
+        super().__init__(start, end, name)
+        self.depth = depth
+
+    @classmethod
+    def _yatiml_savorize(cls, node: yatiml.Node) -> None:
+        if node.is_mapping() and node.has_attribute_type('name', str):
+            n = str(node.get_attribute('name').get_value())
+            if n.endswith('+'):
+                node.set_attribute('name', n[:-1])
+
+    @classmethod
+    def _yatiml_sweeten(cls, node: yatiml.Node) -> None:
+        node.set_attribute(
+            'name', str(node.get_attribute('name').get_value()) + '+')
+
+
+class Track:
+    def __init__(self, spans: List[Span], by: Optional[Dict[str, Span]] = None
+                 ) -> None:
+        self.spans, self.by = spans, by
+
+
 # ------------------------------------------------------------------ models
 def _doc(**kw):
     d = dict(a=7, b='abc', c=1.5, d=None, e=None)
@@ -251,6 +303,18 @@ def _styled(**kw):
     d = dict(col=Color.red, name=Ident('abc'))
     d.update(kw)
     return Styled(**d)
+
+
+def _shared_keys(mode):
+    """String-like objects referenced more than once, also as keys."""
+    k, w = UStr('alice'), Ver('1.2')
+    if mode == 0:       # the same key object as a value and as a key
+        return _styled(u=k, bu={k: 'v'})
+    if mode == 1:       # a yatiml.String shared between value and key
+        return _styled(v=w, bv={w: 1})
+    if mode == 2:       # the aliased key is not the first key
+        return _styled(u=k, bu={UStr('bob'): 'x', k: 'alice'})
+    return _styled(u=UStr('a'), bu={UStr('a'): 'a'})
 
 
 def _shared_pair(mode):
@@ -284,6 +348,7 @@ MODELS = [
         ('bu', [lambda s=s: _styled(bu={UStr(s): s}) for s in STRS[:12]]),
         ('bv', [lambda: _styled(bv={Ver('1.2'): 1, Ver('0.1'): 2})]),
         ('c2', [lambda c=c: _styled(c2=c) for c in Color2]),
+        ('shared', [lambda m=m: _shared_keys(m) for m in range(4)]),
     ]),
     ('when', When, [When], [
         ('d', [lambda d=d: When(d, PATHS[0]) for d in DATES]),
@@ -351,6 +416,19 @@ MODELS = [
                    lambda: Mid(1, OrderedDict([('x1', 1), ('x2', [2])]), 5),
                    lambda: Mid(1, OrderedDict([('b', 'v')]), 0, Unit.metre)]),
         ('unit', [lambda u=u: Mid(2, OrderedDict(), 1, u) for u in Unit]),
+    ]),
+    ('track', Track, [Track, Span, NamedSpan, DeepSpan], [
+        ('spans', [lambda: Track([]),
+                   lambda: Track([Span(0, 10), Span(10, 25)]),
+                   lambda: Track([NamedSpan(0, 10, 'exon1')]),
+                   lambda: Track([Span(3, 4), NamedSpan(-1, 25, 'x+')]),
+                   lambda: Track([DeepSpan(0, 1, 'd', 0)]),
+                   lambda: Track([DeepSpan(5, 6, 'e+', 2), Span(1, 1),
+                                  NamedSpan(2, 2, '')])]),
+        ('by', [lambda: Track([], {}),
+                lambda: Track([], {'a': NamedSpan(0, 1, 'n'),
+                                   'b': DeepSpan(7, 8, 'z', 1)}),
+                lambda: Track([Span(1, 2)], {'1e5': Span(0, 0)})]),
     ]),
     ('top_list', List[Union[int, str]], [], [
         ('v', [lambda: [], lambda: [1, 'a', 2],
